@@ -56,6 +56,7 @@ def mkexc(tok, OOBData=None):
     return {
         "GE": GeneratorExit, "CE": asyncio.CancelledError, "E1": E1, "E1s": E1s, "E2": E2, "BE": BE,
         "RT": RuntimeError, "TE": TypeError, "SAI": StopAsyncIteration, "SI": StopIteration,
+        "KI": KeyboardInterrupt, "SE": SystemExit,
     }[tok]()
 
 
@@ -88,7 +89,7 @@ def pv(v):
 
 
 EXC_CLASS = {"GE": GeneratorExit, "CE": asyncio.CancelledError, "E1": E1, "E1s": E1s, "E2": E2, "BE": BE,
-             "RT": RuntimeError, "TE": TypeError}
+             "RT": RuntimeError, "TE": TypeError, "KI": KeyboardInterrupt, "SE": SystemExit}
 
 # forms of athrow(): how (type, value, traceback) are passed.  "+t" appended = with a traceback object.
 #   i   athrow(instance)                     c   athrow(Class)
@@ -156,7 +157,42 @@ def op_tokens(op):
     return " ".join(str(x) for x in op)
 
 
+def inline(prog):
+    """("SUBGEN", inner): the body iterates a second GeneratorObject iterator whose body `inner` yields
+    items to that loop (`Y2 w`) and, from that depth, values to the *outer* consumer (`Y d`); the loop re-yields
+    every item.  Its flat equivalent — what a native generator / the flat body model runs — is `inner` with
+    `Y2 w` replaced by `L 7; Y w`."""
+    out = []
+    for s in prog:
+        k = s[0]
+        if k == "SUBGEN":
+            for t in s[1]:
+                if t[0] == "Y2":
+                    out += [("L", 7), ("Y", t[1])]
+                else:
+                    out.append(t)
+        elif k == "TRY":
+            out.append(("TRY", inline(s[1]), [(c, inline(b)) for c, b in s[2]], inline(s[3])))
+        elif k == "CALL":
+            out.append(("CALL", inline(s[1])))
+        else:
+            out.append(s)
+    return out
+
+
+def has_subgen(prog):
+    for s in prog:
+        if s[0] == "SUBGEN":
+            return True
+        if s[0] == "CALL" and has_subgen(s[1]):
+            return True
+        if s[0] == "TRY" and (has_subgen(s[1]) or has_subgen(s[3]) or any(has_subgen(b) for _, b in s[2])):
+            return True
+    return False
+
+
 def tokens(prog):
+    prog = inline(prog)
     out = []
     for s in prog:
         k = s[0]
@@ -254,6 +290,25 @@ class _Src:
                 self.emit(ind + 1, "_x = None")
                 self.block(s[1], ind + 1, True)
                 self.emit(ind, f"await {name}()")
+        elif k == "SUBGEN":
+            if self.mode != "goi":
+                raise ValueError("SUBGEN must be inlined for this mode")
+            self.n += 1
+            n = self.n
+            self.emit(ind, f"async def _sub{n}(_g2):")
+            self.emit(ind + 1, "_x = None")
+            for t in s[1]:
+                if t[0] == "Y2":
+                    self.emit(ind + 1, f"_x = await _g2.ayield({t[1]})")
+                else:
+                    self.stmt(t, ind + 1, True)
+            self.emit(ind, f"_g2_{n} = GeneratorObject()")
+            self.emit(ind, f"_it_{n} = _g2_{n}(_sub{n}(_g2_{n}))")
+            self.emit(ind, "KEEP.append(_it_%d)" % n)
+            self.emit(ind, f"async for _y in _it_{n}:")
+            self.emit(ind + 1, "log.append('L7')")
+            self.emit(ind + 1, "_x = await g.ayield(_y)")
+            self.recv(ind + 1)
         elif k == "TRY":
             self.emit(ind, "try:")
             self.block(s[1], ind + 1, nested)
@@ -269,6 +324,7 @@ class _Src:
 
 
 def has_yield(prog):
+    prog = inline(prog)
     for s in prog:
         if s[0] == "Y":
             return True
@@ -283,6 +339,8 @@ def source(prog, mode, name="body"):
     """mode 'mon'   : async def body(M, child, log, tok, OOB, SUB)   (coroutine)
        mode 'native': async def body(log, tok)                       (async generator)
        mode 'goi'   : async def body(g, log, tok)                    (coroutine for GeneratorObject)"""
+    if mode != "goi":
+        prog = inline(prog)
     src = _Src(mode)
     args = {"mon": "M, child, log, tok, OOB, SUB, FIN", "native": "log, tok", "goi": "g, log, tok"}[mode]
     src.emit(0, f"async def {name}({args}):")
@@ -308,13 +366,14 @@ def source(prog, mode, name="body"):
 
 
 _cache: dict = {}
+KEEP: list = []      # inner iterators of SUBGEN bodies: kept alive until the case is over
 
 
 def compile_body(prog, mode, extra=None):
     key = (repr(prog), mode)
     fn = _cache.get(key)
     if fn is None:
-        ns = {"asyncio": asyncio, "E1": E1, "E1s": E1s, "E2": E2, "cv": cv, "canon_exc": canon_exc}
+        ns = {"asyncio": asyncio, "E1": E1, "E1s": E1s, "E2": E2, "cv": cv, "canon_exc": canon_exc, "KEEP": KEEP}
         ns.update(extra or {})
         oob_cls = ns.get("OOBData")
         ns["mkexc"] = lambda t: mkexc(t, oob_cls)
